@@ -74,6 +74,8 @@ def encodeKind : EKind → String
   | .maxLength => "MaxLength"
   | .incompleteInput => "Incomplete"
   | .parseIntOverflow => "ParseInt"
+  | .parseIntEmpty => "ParseInt"
+  | .parseIntInvalidDigit => "ParseInt"
   | .maxInt n => s!"MaxInt:{n}"
   | .context c => "Context:" ++ encodeText c.toList
   | .noValidRanges => "NoValidRanges"
